@@ -23,8 +23,8 @@ RULE = ("case = generated acyclic RTL design (profiles acyclic/ff_heavy/big/shap
         "12% of the cases take a real RTL component from pymtl3.stdlib / the examples instead (queues, arbiters, "
         "crossbars, register files, ChecksumRTL, ProcRTL, ...): no reference model there, but all 4 schedulers must agree "
         "on every top-level signal of every component each cycle and the state must be a fixed point")
-TIERS = {"quick": {"runs": 480, "budget_s": 100, "chunk": 4},
-         "thorough": {"runs": 40000, "budget_s": 1800, "chunk": 8}}
+TIERS = {"quick": {"runs": 960, "budget_s": 100, "chunk": 4},
+         "thorough": {"runs": 120000, "budget_s": 1800, "chunk": 8}}
 REAL = ["pymtl3 DSL elaboration", "GenDAGPass", "Simple/Dynamic/HeuristicTopo/Mamba2020/UnrollSim passes",
         "PrepareSimPass", "Bits / bitstruct datatypes"]
 STUB = ["design generator", "integer reference evaluator (chaotic iteration to the unique fixed point)",
